@@ -97,6 +97,15 @@ func stubNative(ctx *ds.Context, this *ds.VMValue, params []*ds.VMValue) *ds.VMV
 	return ds.NewNullVal()
 }
 
+// publicBuiltin returns the built-in native function a script gets for name (nil when there is none).
+func publicBuiltin(name string) *ds.VMValue {
+	v := ds.NewVM().LoadNameGlobal(name, true)
+	if v == nil || v.TypeId != ds.VMTypeNativeFunction {
+		return nil
+	}
+	return v
+}
+
 // twin rebuilds v as a well-formed value using only the public constructors.
 func twin(v *ds.VMValue, depth int) *ds.VMValue {
 	if v == nil || depth > 200 {
@@ -152,8 +161,13 @@ func twin(v *ds.VMValue, depth int) *ds.VMValue {
 		return ds.NewFunctionValRaw(n)
 	case ds.VMTypeNativeFunction:
 		nd, _ := v.Value.(*ds.NativeFunctionData)
-		if nd != nil && nd.NativeFunc != nil {
-			return &ds.VMValue{TypeId: v.TypeId, Value: nd}
+		if nd != nil && nd.NativeFunc != nil && nd.Self == nil {
+			// only a function that a script can reach by that name is its own twin (a public builtin);
+			// anything else the decoder hands out (e.g. an unbound prototype method) is replaced by a stub,
+			// so a crash on calling it is attributed to decoding
+			if b := publicBuiltin(nd.Name); b != nil && ds.ValueEqual(b, v, false) {
+				return &ds.VMValue{TypeId: v.TypeId, Value: nd}
+			}
 		}
 		name := ""
 		if nd != nil {
